@@ -336,6 +336,10 @@ def run_case(cd: CaseDef, params, case_id):
             for ob in obs:
                 n_paths += 1
                 st, md, dt, backend = solve_vc(ob.pc, ob.formula, cd.solver_timeout, symbols)
+                if st == "unknown" and time.time() - t0 < cd.timeout * 0.7:
+                    # second attempt with a 4x budget (verdicts must not flip to undecided on a busy machine)
+                    st, md, dt2, backend = solve_vc(ob.pc, ob.formula, cd.solver_timeout * 4, symbols)
+                    dt += dt2
                 if st != "unsat" and ob.info.get("_cas") is not None:
                     from . import cas
                     lhs, rhs, asm = ob.info["_cas"]
